@@ -166,6 +166,13 @@ pub fn header_pairs() -> Vec<(Item, Item)> {
         for v in [b(b"\x01"), b(b""), u(1), t("a"), NULL] {
             p.push((u(l), v));
         }
+        // byte strings are opaque: leading zeros are content
+        p.push((u(l), b(b"\x00\x01")));
+    }
+    p.push((u(6), b(b"\x00\x00")));
+    // a textual algorithm is any text
+    for v in tricky_texts().into_iter().take(3) {
+        p.push((u(1), v));
     }
     // 7: counter signature(s)
     for v in [
@@ -367,10 +374,19 @@ pub fn keys_invalid() -> Vec<Item> {
 }
 
 /// (key, value) pairs for CWT claims sets (DESIGN 4.18).
+/// Texts a well-meaning syntax check (URI scheme, date, host:port, media type) would trip over.
+pub fn tricky_texts() -> Vec<Item> {
+    vec![t("a:b"), t(":x"), t("12:30"), t("\u{fc}ber:cool"), t("urn:example:\u{fc}"), t("[2001:db8::1]:5684"), t("a b"), t("\u{0}")]
+}
+
 pub fn claims_pairs() -> Vec<(Item, Item)> {
     let mut p: Vec<(Item, Item)> = Vec::new();
     for l in [1u64, 2, 3] {
         for v in [t("x"), t(""), b(b"x"), u(1), NULL] {
+            p.push((u(l), v));
+        }
+        // free text: any content is text
+        for v in tricky_texts().into_iter().take(if l == 1 { 8 } else { 4 }) {
             p.push((u(l), v));
         }
     }
